@@ -58,7 +58,7 @@ def cases(draw, big):
     off = draw(st.integers(0, size + 2))
     ln = draw(st.integers(0, size + 2))
     return {"k": k, "n": n, "happy": happy, "seg": seg, "size": size, "servers": nservers, "fill": draw(st.integers(0, 5)),
-            "convergent": draw(st.booleans()), "up": draw(ch), "down": draw(ch), "read": [off, ln]}
+            "convergent": draw(st.booleans()), "guess": draw(st.sampled_from([None, None, 16, 100, 1000])), "up": draw(ch), "down": draw(ch), "read": [off, ln]}
 
 
 def run_shard(spec, ctx):
@@ -91,6 +91,9 @@ def run_case(case, ctx):
         up_nonfifo = g.sched.nonfifo
         # ---- download with its own schedule
         g.sched.choices, g.sched.ci = list(case["down"]), 0
+        from allmydata.immutable.downloader.node import DownloadNode
+        from allmydata.interfaces import DEFAULT_IMMUTABLE_MAX_SEGMENT_SIZE
+        DownloadNode.default_max_segment_size = case.get("guess") or DEFAULT_IMMUTABLE_MAX_SEGMENT_SIZE     # the reader's initial segment-size guess may be below the real size
         node = g.c0.nodemaker.create_from_cap(cap)
         ctx.check(node.get_size() == size, "node-size", "%s: node.get_size()=%r" % (desc, node.get_size()))
         r = g.run(read_node(node))
@@ -108,10 +111,17 @@ def run_case(case, ctx):
         ctx.check(r2[1] == data[off:off + ln], "wrong-bytes", "%s: read(offset=%d,size=%d) returned %d bytes that differ from the slice" % (desc, off, ln, len(r2[1])))
         # a fresh client (other node cache, other broker order) reads the same bytes
         c2 = g.add_client()
-        r3 = g.run(read_node(c2.nodemaker.create_from_cap(cap)))
+        n2 = c2.nodemaker.create_from_cap(cap)
+        # its first read is the ranged one: the node has not yet learned the real segment size
+        r4 = g.run(read_node(n2, off, ln))
+        ctx.check(r4 == ("ok", data[off:off + ln]), "wrong-bytes", "%s: a fresh client's first read(offset=%d,size=%d) gave %s" % (desc, off, ln, "other bytes" if r4[0] == "ok" else repr(r4[1])[:200]))
+        r3 = g.run(read_node(n2))
         ctx.check(r3 == ("ok", data), "wrong-bytes", "%s: second client read %s" % (desc, r3[0]))
     finally:
         g.stop()
+        from allmydata.immutable.downloader.node import DownloadNode as _DN
+        from allmydata.interfaces import DEFAULT_IMMUTABLE_MAX_SEGMENT_SIZE as _D
+        _DN.default_max_segment_size = _D
     segsize_eff = min(seg, size) if size else seg
     nseg = 0 if size <= 55 else -(-size // max(1, (max(k, (seg // k) * k) if seg >= k else k)))
     multi = nseg >= 2
